@@ -1,6 +1,6 @@
 """C12 — the script integrity hash matches the witnesses actually shipped.
 Scenario generator, driver and Coq literal printer are shared with C11 (tools/props/c11.py)."""
-import hashlib, json
+import hashlib, json, os
 from lib import common as C
 from props import c11 as G
 
@@ -12,7 +12,9 @@ KNOWN_REGIONS = []
 MANIFEST = dict(
     text='Theorems (Coq, H abstract): the language-view map the code emits has strictly ascending keys in canonical '
          '(length, bytes) order for every subset of {V1,V2,V3} and equals the ledger\'s language views whatever the order in '
-         'which the builder met the scripts; after a successful build the body\'s script data hash is '
+         'which the builder met the scripts; the PlutusV1 parameter list is independent of the dict order and ascending in '
+         'its keys (names by code points, integer positions numerically: a list-shaped cost model enters in list order '
+         'whatever its length); after a successful build the body\'s script data hash is '
          'H(bytes of witness entry 5 (empty map when absent) ++ bytes of witness entry 4 (nothing when absent) ++ enc(language '
          'views of the Plutus versions used)), absent exactly when there are neither redeemers nor datums — for map and list '
          'redeemers and after execution units were replaced. Oracle: the preimage is rebuilt in Coq from byte slices of '
@@ -34,7 +36,10 @@ ASSUMPTIONS = [
     'native, equal script hashes mean equal scripts (other calls are rejected by the ledger before the hash matters)',
     'absent redeemers enter the hash as the empty map a0 (Conway), absent datums as the empty string',
     'a language whose cost model is missing from the protocol parameters contributes an empty parameter list',
-    'PlutusV1 parameters are ordered by name, PlutusV2/V3 parameters in the order the chain context supplies them',
+    'PlutusV1 parameters are ordered by key — names by code points, integer positions numerically —, PlutusV2/V3 '
+    'parameters in the order the chain context supplies them (generated integer positions are 0..n-1 and, for V2/V3, in '
+    'ascending dict order, which is what enumerate() in the cardano-cli backend yields); one cost-model dict never mixes '
+    'str and int keys (sorted() raises TypeError on such a dict)',
 ]
 
 
@@ -100,11 +105,19 @@ def cint(n):
     return G.e_int(n)
 
 
-def views_bytes(cms, langs):
+def cm_of(S, version):
+    """the cost-model dict of PlutusV<version> as the chain context serves it: integer keys where cm_int_keys says so"""
+    cm = S['cost_models'].get(f'PlutusV{version}')
+    if cm is not None and f'PlutusV{version}' in (S.get('cm_int_keys') or []):
+        cm = {int(k): v for k, v in cm.items()}
+    return cm
+
+
+def views_bytes(S, langs):
     """language views of the given ledger language ids (0, 1, 2) — harness-side replica, only used to fill the H table"""
     out = []
     for l in [x for x in (1, 2, 0) if x in langs]:
-        cm = cms.get(f'PlutusV{l + 1}', {})
+        cm = cm_of(S, l + 1) or {}
         if l == 0:
             inner = b'\x9f' + b''.join(cint(cm[k]) for k in sorted(cm)) + b'\xff'
             out.append(G.e_bytes(b'\x00') + G.e_bytes(inner))
@@ -136,7 +149,7 @@ def h_table(S, R):
     s5, s4, _ = tx_slices(tx)
     f5 = s5 if s5 is not None else b'\xa0'
     f4 = s4 if s4 is not None else b''
-    cands = {views_bytes(S['cost_models'], langs_of(S))}
+    cands = {views_bytes(S, langs_of(S))}
     if s5 is None:
         cands.add(b'\xa0')
     elif not langs_of(S):
@@ -144,13 +157,97 @@ def h_table(S, R):
     return [(f5 + f4 + v, hashlib.blake2b(f5 + f4 + v, digest_size=32).digest()) for v in sorted(cands)]
 
 
+# ------------------------------------------------------------------ shape statistics (harness side, not part of the verdict)
+def noncanonical_map(b, i=0):
+    """(some definite-length map inside the item at b[i:] has its keys in an order other than the canonical one
+    (shorter encoded key first, then bytewise), index after the item)"""
+    m, ai = b[i] >> 5, b[i] & 31
+    if m == 7:
+        return False, skip(b, i)
+    if ai == 31:
+        bad, i = False, i + 1
+        while b[i] != 0xff:
+            x, i = noncanonical_map(b, i)
+            bad = bad or x
+        return bad, i + 1
+    n, j = _arg(b, i)
+    if m in (0, 1):
+        return False, j
+    if m in (2, 3):
+        return False, j + n
+    bad = False
+    if m == 4:
+        for _ in range(n):
+            x, j = noncanonical_map(b, j)
+            bad = bad or x
+        return bad, j
+    if m == 5:
+        keys = []
+        for _ in range(n):
+            k0 = j
+            x, j = noncanonical_map(b, j)
+            keys.append(bytes(b[k0:j]))
+            y, j = noncanonical_map(b, j)
+            bad = bad or x or y
+        return bad or keys != sorted(keys, key=lambda k: (len(k), k)), j
+    return noncanonical_map(b, j)
+
+
+def data_forms(S):
+    """[(form, CBOR bytes)] of the datums the calls hand over as objects, and of the redeemer data"""
+    dat, red = [], []
+    for op in S['ops']:
+        if op[0] == 'sinput':
+            if op[3] is not None:
+                dat.append((op[5] if len(op) > 5 else 'raw', bytes.fromhex(op[3])))
+            d = S['utxos'][op[1]]['datum']
+            if d is not None and d[0] == 'inline':
+                dat.append((d[2] if len(d) > 2 else 'raw', bytes.fromhex(d[1])))
+            r = op[4]
+        elif op[0] == 'outdatum':
+            dat.append((op[2] if len(op) > 2 else 'raw', bytes.fromhex(op[1])))
+            r = None
+        elif op[0] in ('mint', 'wdrl', 'cert'):
+            r = op[2]
+        else:
+            r = None
+        if r is not None:
+            red.append((r.get('form', 'raw'), bytes.fromhex(r['data'])))
+    return dat, red
+
+
+def cm_shape(S, version):
+    cm = S['cost_models'].get(f'PlutusV{version}')
+    if cm is None:
+        return 'missing'
+    if f'PlutusV{version}' in (S.get('cm_int_keys') or []):
+        return 'int-positions'
+    return 'padded-decimal-strings' if cm and all(k.isdigit() for k in cm) else 'names'
+
+
+def corpus_cases():
+    """directed regression scenarios (corpus/C12.json): PlutusV1 / V2 / V3 with cost models keyed by integer positions of
+    9..166 entries (ascending and scrambled dict order) and by zero-padded strings; datums and redeemer data containing
+    maps in non-canonical insertion order, handed over as dict / RawPlutusData / PlutusData dataclass / RawCBOR"""
+    p = os.path.join(C.VERIF, 'corpus', 'C12.json')
+    return json.load(open(p)) if os.path.exists(p) else []
+
+
 # ------------------------------------------------------------------ Coq literals
 def r_cm(S):
     items = []
     for v in (1, 2, 3):
-        cm = S['cost_models'].get(f'PlutusV{v}')
-        if cm is not None:
-            items.append(f'({C.cn(v)}, {C.clist([f"({C.cstr(k)}, {C.cz(x)})" for k, x in cm.items()])})')
+        cm = cm_of(S, v)
+        if cm is None:
+            continue
+        if all(isinstance(k, int) for k in cm) and f'PlutusV{v}' in (S.get('cm_int_keys') or []):
+            if list(cm) == list(range(len(cm))):               # {i: v for i, v in enumerate(values)}
+                p = f'ByPos (enumerate {C.clist([C.cz(x) for x in cm.values()])})'
+            else:
+                p = f'ByPos {C.clist([f"({C.cz(k)}, {C.cz(x)})" for k, x in cm.items()])}'
+        else:
+            p = f'ByName {C.clist([f"({C.cstr(k)}, {C.cz(x)})" for k, x in cm.items()])}'
+        items.append(f'({C.cn(v)}, {p})')
     return C.clist(items)
 
 
@@ -213,17 +310,23 @@ def evaluate(cases, results, shard=40):
 
 
 def correspond(ctx, n=None):
+    corpus = corpus_cases() if n is None else []
     n = n or ctx.n(300, 10000)
-    cases = [G.gen_scenario(ctx.rng, plain=ctx.rng.random() < 0.4) for _ in range(n)]
+    cases = corpus + [G.gen_scenario(ctx.rng, plain=ctx.rng.random() < 0.4) for _ in range(n - len(corpus))]
     results = C.run_impl('plutusbuild_driver', {'cases': cases})
     mism, ofail, outside, errs = evaluate(cases, results)
     if errs:
         raise RuntimeError('cases file failed to compile: ' + errs[0])
-    built = [i for i, R in enumerate(results) if R.get('stage') == 'done']
+    built = [i for i, R in enumerate(results) if R.get('stage') == 'done' and not G.estimation_shifted(R)]
     if len(built) < 0.5 * len(cases):
         raise RuntimeError(f'only {len(built)} of {len(cases)} scenarios were built')
     shape = dict(hash_present=0, hash_absent=0, redeemers_and_datums=0, datums_only=0, redeemer_map=0, redeemer_list=0,
-                 evaluated_units=0, langs={}, cost_model_missing_for_used_language=0)
+                 evaluated_units=0, langs={}, cost_model_missing_for_used_language=0,
+                 cost_model_shape_of_used_language={}, v1_used_with_int_positions_ge10=0, v1_used_with_scrambled_positions=0,
+                 shipped_map_not_in_canonical_key_order=dict(datum_as_dict_or_RawPlutusData=0, datum_as_PlutusData_dataclass=0,
+                                                             datum_as_RawCBOR=0, redeemer_as_dict_or_RawPlutusData=0,
+                                                             redeemer_as_PlutusData_dataclass=0, redeemer_as_RawCBOR=0),
+                 plutusdata_dataclass_objects=0)
     nontriv = set()
     for i in built:
         S, R = cases[i], results[i]
@@ -237,6 +340,22 @@ def correspond(ctx, n=None):
         ls = ''.join(str(x + 1) for x in sorted(langs_of(S))) or '-'
         shape['langs'][ls] = shape['langs'].get(ls, 0) + 1
         shape['cost_model_missing_for_used_language'] += any(f'PlutusV{l + 1}' not in S['cost_models'] for l in langs_of(S))
+        for l in langs_of(S):
+            k = f'V{l + 1}:{cm_shape(S, l + 1)}'
+            shape['cost_model_shape_of_used_language'][k] = shape['cost_model_shape_of_used_language'].get(k, 0) + 1
+        if 0 in langs_of(S) and cm_shape(S, 1) == 'int-positions':
+            keys = [int(k) for k in S['cost_models']['PlutusV1']]
+            shape['v1_used_with_int_positions_ge10'] += len(keys) >= 10
+            shape['v1_used_with_scrambled_positions'] += keys != sorted(keys)
+        npd = R.get('pdata', [0])[0]
+        shape['plutusdata_dataclass_objects'] += npd
+        dat, red = data_forms(S)
+        nc = shape['shipped_map_not_in_canonical_key_order']
+        for kind, lst, blob in (('datum', dat, s4), ('redeemer', red, s5)):
+            for form, b in lst:
+                if blob is not None and b in blob and noncanonical_map(b)[0]:
+                    f = 'RawCBOR' if form == 'raw' else 'PlutusData_dataclass' if form == 'pdata' and npd else 'dict_or_RawPlutusData'
+                    nc[f'{kind}_as_{f}'] += 1
         if h is not None and i not in outside and i not in ofail:
             nontriv.add(C.canon_hash(S))
 
@@ -251,11 +370,17 @@ def correspond(ctx, n=None):
         evaluations=len(cases), distinct_nontrivial=len(nontriv),
         rule='the Plutus builder scenarios of C11 (script inputs / minting / withdrawal / certificate scripts of V1, V2, V3, '
              'native and raw-bytes kind, datums of random Plutus-data shapes by hash / inline / extra, redeemer map or list, '
-             'execution units supplied or evaluated with buffers 0 / 0.1 / 0.2 / 0.25 / 0.5 / 1.0, cost-model sets with '
-             'languages missing, V1 names in random dict order); non-trivial = built transaction inside the premise whose body '
-             'carries a script data hash that the oracle confirmed; distinct by hash',
-        samples=[cases[0]], built=len(built), built_shapes=shape,
+             'execution units supplied or evaluated with buffers 0 / 0.1 / 0.2 / 0.25 / 0.5 / 1.0; datums and redeemer data '
+             'with maps of 0-4 integer / byte-string keys of several encoded lengths in random insertion order (not canonical), '
+             'constructors 0..128 in both tag forms, handed over as RawCBOR, as plain Python values (dict, RawPlutusData, '
+             'IndefiniteList) or as instances of PlutusData dataclasses; cost-model sets with languages missing, keyed by '
+             'names in random dict order, by zero-padded decimal strings, or by INTEGER positions (cardano-cli list form) with '
+             '2 / 9 / 10 / 11 / 12 / 13 / 20 / 21 / 25 / 101 / 111 / 166 entries, for PlutusV1 also in scrambled dict order) + directed '
+             'corpus; non-trivial = built transaction inside the premise whose body carries a script data hash that the '
+             'oracle confirmed; distinct by hash',
+        samples=[cases[len(corpus)]], corpus_cases=len(corpus), built=len(built), built_shapes=shape,
         outside_premise_sound12=len(outside), known_region_hits=known_hits,
+        estimation_tx_with_other_pointers=sum(1 for R in results if 'driver_error' not in R and G.estimation_shifted(R)),
         compared='bytes of witness entries 5 and 4 and body field 11 as sliced from tx.to_cbor() by Cbor.dec against the model; '
                  'oracle: H(slice 5 | a0, slice 4 | empty, enc(spec language views of the versions used)) = field 11; '
                  'absence iff neither entry is shipped',
